@@ -51,11 +51,6 @@ JudgeResponse(x, rq) ==
      ELSE IF cb.body # Concat(d.chunks) /\ ~(nobody /\ ~chunked /\ rs.body = <<>>) THEN "RespBodyFaithful"
      ELSE "ok"
 
-JudgeHttp(x) ==
-  LET rq == ParseRequest(x.raw) IN
-  IF ~rq.ok THEN "TraceShape"
-  ELSE LET a == JudgeRequest(x, rq) IN IF a # "ok" THEN a ELSE JudgeResponse(x, rq)
-
 \* ---- model drift (never a verdict) ----
 RECURSIVE ModelReads(_, _, _, _)
 ModelReads(w, s, reads, i) ==
@@ -67,24 +62,30 @@ ModelReads(w, s, reads, i) ==
 
 DriftDechunk(x) == IF x.api \in {"read", "readinto"} /\ ParseChunked(x.wire).st # "unclaimed" /\ ~ModelReads(x.wire, InitS, x.reads, 1)
                    THEN "readinto model vs real reads" ELSE ""
-DriftHttp(x) ==
-  LET rq == ParseRequest(x.raw)  rs == ParseResponse(x.got)  d == x.did
+DriftHttp(x, rq) ==
+  LET rs == ParseResponse(x.got)  d == x.did
       may == MayChunk(x.proto, rq.method = HEAD, d.code, HasCLHeader(d.headers))
-  IN IF ~rq.ok \/ ~rs.ok THEN ""
+  IN IF ~rs.ok THEN ""
      ELSE IF rs.body # WireBody("fixed", may, d.chunks) THEN "writer model vs real body bytes" ELSE ""
 
-Verdict(x) == CASE x.op = "dechunk" -> JudgeDechunk(x.wire, x.reads, x.fin)
-                [] x.op = "http"    -> JudgeHttp(x)
-                [] OTHER -> "ok"
-Drift(x) == CASE x.op = "dechunk" -> DriftDechunk(x)
-              [] x.op = "http"    -> DriftHttp(x)
-              [] OTHER -> ""
+\* <<verdict, drift>>
+EvalHttp(x) ==
+  LET rq == ParseRequest(x.raw) IN
+  IF ~rq.ok THEN <<"TraceShape", "">>
+  ELSE LET a == JudgeRequest(x, rq) IN
+       IF a # "ok" THEN <<a, "">>
+       ELSE LET b == JudgeResponse(x, rq) IN IF b # "ok" THEN <<b, "">> ELSE <<"ok", DriftHttp(x, rq)>>
+
+Eval(x) == CASE x.op = "dechunk" -> LET v == JudgeDechunk(x.wire, x.reads, x.fin) IN
+                                    <<v, IF v = "ok" THEN DriftDechunk(x) ELSE "">>
+             [] x.op = "http"    -> EvalHttp(x)
+             [] OTHER -> <<"ok", "">>
 
 Init == l = 1
 Next == /\ l <= Len(Lines)
-        /\ LET x == Lines[l]  v == Verdict(x)  dr == Drift(x) IN
-           /\ IF v = "ok" THEN TRUE ELSE PrintT(ToJson([reject |-> 1, t |-> x.t, i |-> x.i, clause |-> v]))
-           /\ IF dr = "" THEN TRUE ELSE PrintT(ToJson([drift |-> 1, t |-> x.t, i |-> x.i, what |-> dr]))
+        /\ LET x == Lines[l]  e == Eval(x) IN
+           /\ IF e[1] = "ok" THEN TRUE ELSE PrintT(ToJson([reject |-> 1, t |-> x.t, i |-> x.i, clause |-> e[1]]))
+           /\ IF e[2] = "" THEN TRUE ELSE PrintT(ToJson([drift |-> 1, t |-> x.t, i |-> x.i, what |-> e[2]]))
         /\ l' = l + 1
 
 Done == PrintT(ToJson([judged |-> Len(Lines)])) /\ TLCGet("generated") >= 0
